@@ -30,6 +30,100 @@ def nrm(s):
     return re.sub(r"[^a-z0-9]", "", s.lower())
 
 
+def build_default(f, fidx):
+    """The constant `build()` substitutes for an unset one-byte field: `self.<field>.unwrap_or([K])` -> K, else None."""
+    defs = {}
+    for b in f["blocks"]:
+        for st in b["stmts"]:
+            if st.get("k") == "assign" and not st["lhs"].get("p"):
+                defs.setdefault(st["lhs"]["l"], []).append(st["rv"])
+    for b in f["blocks"]:
+        t = b["term"]
+        if t["k"] != "call" or t["func"].get("const", {}).get("fn", {}).get("name") != "unwrap_or" or len(t["args"]) != 2:
+            continue
+        a0 = t["args"][0].get("move") or t["args"][0].get("copy")
+        a1 = t["args"][1].get("move") or t["args"][1].get("copy")
+        if not a0 or not a1:
+            continue
+        src = [rv for rv in defs.get(a0["l"], []) if rv.get("k") == "use" and (rv["op"].get("copy") or rv["op"].get("move") or {}).get("p")
+               and any(pe.get("f") == fidx for pe in (rv["op"].get("copy") or rv["op"].get("move"))["p"] if isinstance(pe, dict))]
+        if not src:
+            continue
+        for rv in defs.get(a1["l"], []):
+            if rv.get("k") == "agg" and len(rv.get("ops", [])) == 1 and "const" in rv["ops"][0] and "bits" in rv["ops"][0]["const"]:
+                return rv["ops"][0]["const"]["bits"]
+    return None
+
+
+def check_builder_defaults(run, F):
+    """R6: a builder keeps a flags byte as `Option<[u8; 1]>` and `build()` substitutes a documented default when no setter
+    touched it.  Every setter that updates the byte must start from that same default: calling it on an untouched builder
+    has to give what calling it on a builder holding `Some([default])` gives - otherwise the byte on the wire depends on
+    the order in which the application called the setters (password() before user_name() clearing Clean Session)."""
+    import explore
+    r6 = run.rule("C03-R6", "builder setters of a defaulted flags byte start from build()'s default", floor=12)
+    OPT = "std::option::Option"
+    n = 0
+    for bpath, adt in sorted(F.adts.items()):
+        if not (bpath.startswith("mqtt::packet::") and bpath.split("<")[0].endswith("Builder") and adt.get("kind") == "struct"):
+            continue
+        flds = [f for f in adt["variants"][0]["fields"] if f["ty"].replace(" ", "") == "std::option::Option<[u8;1]>"]
+        if not flds:
+            continue
+        meths = [f for f in F.fns.values() if f.get("impl_self", "").split("<")[0] == bpath.split("<")[0] and f.get("kind") == "AssocFn"]
+        build = [f for f in meths if f.get("name") == "build"]
+        if not build:
+            continue
+        for fld in flds:
+            d = build_default(build[0], fld["i"])
+            if d is None:
+                continue          # build() does not default this field (it is required, or computed)
+            for m in sorted(meths, key=lambda f: f["path"]):
+                if m.get("name") in ("build", "validate", "new", "default") or not m["locals"][1].split("<")[0].endswith("Builder"):
+                    continue          # (setters take the builder by value)
+                outs = []
+                wrote = False
+                for init in (("agg", OPT, "None", ()), ("agg", OPT, "Some", (("arr", (("c", d, "u8"),)),))):
+                    def setup(ex, st, fr, init=init):
+                        st.heap[(fr.root(1), (("f", fld["i"], fld["name"]),))] = init
+                    ex = explore.Explorer(F)
+                    res = set()
+                    try:
+                        ps = ex.run(m["path"], setup=setup)
+                    except explore.ExploreError:
+                        ps = []
+                        res.add("?")
+                    for p in ps:
+                        if p.kind != "return":
+                            continue
+                        work = [conn.expand_all(ex.interned_rev, p.ret)] if p.ret else []
+                        val = None
+                        while work:
+                            x = work.pop()
+                            if isinstance(x, tuple) and x and x[0] == "agg":
+                                if x[1].split("<")[0] == bpath.split("<")[0] and len(x[3]) > fld["i"]:
+                                    val = x[3][fld["i"]]
+                                    break
+                                work.extend(x[3])
+                        if val is not None:
+                            if val != init:
+                                wrote = True
+                            res.add(conn.short(val)[:120])
+                    outs.append(res)
+                if not wrote:
+                    continue          # the method does not touch this byte
+                n += 1
+                key = "%s::%s/%s" % (bpath.replace("mqtt::packet::", ""), m["name"], fld["name"])
+                if outs[0] != outs[1] or "?" in outs[0]:
+                    r6.violation(key, "%s::%s on an untouched builder leaves %s = %s, on a builder holding build()'s default [%d] it leaves %s: the setter starts "
+                                 "from another default than build() (the encoded byte depends on the order of the setter calls)"
+                                 % (bpath.split("::")[-1], m["name"], fld["name"], sorted(outs[0]), d, sorted(outs[1])), site="%s:%s" % (m["file"], m["line"]))
+                else:
+                    r6.ok(key, {"default": d, "result": sorted(outs[0])})
+    if n == 0:
+        r6.violation("anchor", "no builder setter of a defaulted flags byte found (anchor lost)")
+
+
 def only_first_byte_used(f, call):
     """Is the array a call returns read only through its element 0 (and never borrowed, moved or passed on)?"""
     d = call.get("dest") or {}
@@ -257,6 +351,8 @@ def check(run, F, tier):
             r5.violation(b.split(" ")[1] + "@" + b.split(":")[0], "non-big-endian conversion in the codec: %s" % b)
     else:
         r5.ok("scan", {"call_sites_scanned": n})
+
+    check_builder_defaults(run, F)
 
     # ------------------------------------------------------------------ R3
     r3 = run.rule("C03-R3", "each packet stores its own kind's fixed header; PUBLISH flag masks/shifts as specified", floor=29 * 2 + 6)
